@@ -267,7 +267,8 @@ def run_C04(run):
         if rx.compiles(a.text)[0]:
             descs[explore.h64(a.key())] = explore.desc(a)
     descs.update(res['frontier'])
-    extra = ["Indefinite('a')", "OneOrMore('a')", "Optional('a', False)", "Indefinite(AnyDigit())", "AtLeastAtMost('ab', 1, 2)", "AtLeast('a', 2)",
+    extra = ["Pregex('e\\u0301')", "Pregex('a\\u0300\\u0301')", "Pregex('\\u0301')", "Pregex('\\U0001f600')", "Pregex('\\ud800')", "Pregex('\\x00')",
+             "Pregex('a\\ufe0f')", "AnyFrom('\\u0301')", "Pregex('}')", "Pregex('a{2}')", "Indefinite('a')", "OneOrMore('a')", "Optional('a', False)", "Indefinite(AnyDigit())", "AtLeastAtMost('ab', 1, 2)", "AtLeast('a', 2)",
              "AtMost('a', 2, False)", "Indefinite(Either('a', 'b'))", "OneOrMore(Capture('a'))", "Indefinite(Indefinite('a'))", "Exactly('a', 2)",
              "Optional(Optional('a'))", "OneOrMore('ab', False)", "Indefinite(Group('ab'))"]
     for a in dsl.safe_atoms([(e, None) for e in extra], run):
